@@ -203,7 +203,7 @@ def exVmdk : Bytes :=
 
 example : exVmdk.length = 1024 ∧ VmdkSparse exVmdk := by decide +kernel
 
-instance : DecidableEq (Except Err Int) := fun a b =>
+instance instDecEqVmdkVsize : DecidableEq (Except Err Int) := fun a b =>
   match a, b with
   | .ok x, .ok y => if h : x = y then isTrue (by rw [h]) else isFalse (by intro e; cases e; exact h rfl)
   | .error x, .error y => if h : x = y then isTrue (by rw [h]) else isFalse (by intro e; cases e; exact h rfl)
